@@ -528,8 +528,12 @@ class Interp:
         env = self.env_of(st, fid) if fid is not None else None
         if env is None:
             if name in func.closure:
-                if fid is not None:
-                    raise Unsupported("closure variable %s: the defining activation is not available" % name)
+                # the defining activation ran in a scratch state (class bodies, module constants: property factories ...) and
+                # its final variables are not available: the value at definition time is the variable's value for ever
+                # when the enclosing function binds the name exactly once, outside any loop (checked on its source)
+                parent = getattr(func, "def_func", None)
+                if fid is not None and parent is not None and not self._bound_once(parent.node, name):
+                    raise Unsupported("closure variable %s: the defining activation is not available and the name is rebound" % name)
                 return True, func.closure[name]
             return False, None
         comp = getattr(func, "comp_snapshot", None)
@@ -546,6 +550,48 @@ class Interp:
         if parent is not None and parent.closure is not None:
             return self.closure_lookup(parent, name, st)
         return False, None
+
+    def _bound_once(self, fnode, name):
+        """`name` has at most one binding in the function `fnode` (nested functions excluded), not inside a loop, no
+        del / global / nonlocal: a closure created after that binding sees this value whenever it is called"""
+        cache = fnode.__dict__.setdefault("_pyvc_bound_once", {})
+        if name in cache:
+            return cache[name]
+        count = 0
+        args = getattr(fnode, "args", None)
+        if args is not None:
+            allargs = list(args.posonlyargs) + list(args.args) + list(args.kwonlyargs) + [a for a in (args.vararg, args.kwarg) if a]
+            count += sum(1 for a in allargs if a.arg == name)
+        ok = True
+
+        def walk(n, in_loop):
+            nonlocal count, ok
+            for c in ast.iter_child_nodes(n):
+                if isinstance(c, (ast.FunctionDef, ast.AsyncFunctionDef, ast.ClassDef)):
+                    if c.name == name:
+                        count += 1
+                        ok = ok and not in_loop
+                    continue
+                if isinstance(c, ast.Lambda):
+                    continue
+                if isinstance(c, ast.Name) and c.id == name and isinstance(c.ctx, (ast.Store, ast.Del)):
+                    count += 1
+                    ok = ok and not in_loop and isinstance(c.ctx, ast.Store)
+                if isinstance(c, (ast.Global, ast.Nonlocal)) and name in c.names:
+                    ok = False
+                if isinstance(c, ast.ExceptHandler) and c.name == name:
+                    ok = False
+                if isinstance(c, (ast.Import, ast.ImportFrom)) and any((a.asname or a.name.split(".")[0]) == name for a in c.names):
+                    count += 1
+                walk(c, in_loop or isinstance(c, (ast.For, ast.While, ast.AsyncFor, ast.ListComp, ast.SetComp, ast.DictComp, ast.GeneratorExp)))
+
+        if isinstance(fnode, ast.Lambda):
+            r = count <= 1
+        else:
+            walk(fnode, False)
+            r = ok and count <= 1
+        cache[name] = r
+        return r
 
     def _new_closure(self, fv, st):
         """record where a lambda / nested def was created and evaluate its parameter defaults NOW (CPython evaluates them
